@@ -17,7 +17,7 @@ import numpy as np
 from hypothesis import strategies as st
 
 from vf.common import Check, Violation, require
-from vf.strategies import CRS_POOL, FA, SPELLINGS, SINU_SPELLINGS, crs_kind, geoboxes, mk_affine, mk_crs, mk_geobox, shapes
+from vf.strategies import CRS_POOL, FA, SPELLINGS, SINU_SPELLINGS, crs_kind, geoboxes, mk_affine, mk_crs, mk_crs_spec, mk_geobox, shapes
 
 RULE = (
     "Hypothesis: tiled GeoBoxes from vf.strategies.geoboxes (exact/general family, north-up, mirrored, rotated, "
@@ -1089,11 +1089,18 @@ def o_graph_rot(case, T):
 
 # ---------------------------------------------------------------------------- different CRS
 @st.composite
-def s_graph_other(draw):
+def s_graph_other(draw, continental=False):
     la, lb = draw(st.sampled_from(LABEL_PAIRS))
     place = draw(st.sampled_from(["overlap", "overlap", "overlap", "overlap", "near", "gap", "gap", "far", "bbox_corner", "bbox_corner"]))
-    # far apart (>= 100 px) only fits into the common valid area when the rasters are small
-    dst = draw(placed_boxes(la, lb, maxt=5, max_side=24, extents=(2e3, 2e4) if place == "far" else (2e3, 2e4, 1e5, 2.5e5)))
+    if continental:
+        # rasters 1000-4000 km across with tiles of tens of km: the sides of either raster are visibly curved in the
+        # other's CRS (a lon/lat mosaic warped onto a continental equal-area grid, and the other way round)
+        la, lb = draw(st.sampled_from([p for p in LABEL_PAIRS if (crs_kind(p[0]) == "projected") != (crs_kind(p[1]) == "projected") or {p[0], p[1]} <= {"3577", "3035", "6933", "sinu", "3857"}]))
+        place = "overlap"
+        dst = draw(placed_boxes(la, lb, maxt=12, max_side=40, extents=(1e6, 2e6, 3e6, 4e6), max_px=2e5))
+    else:
+        # far apart (>= 100 px) only fits into the common valid area when the rasters are small
+        dst = draw(placed_boxes(la, lb, maxt=5, max_side=24, extents=(2e3, 2e4) if place == "far" else (2e3, 2e4, 1e5, 2.5e5)))
     if place == "bbox_corner":
         # a destination turned by 25..65 degrees (mod 90) leaves the corners of its bounding box empty
         ang = draw(st.sampled_from([45.0, 45.0, 30.0, 60.0, 135.0, 225.0, 40.0]))
@@ -1105,8 +1112,8 @@ def s_graph_other(draw):
     sny, snx = sshape
     # source raster extent relative to the destination's, capped at 300 km so that it stays inside the valid area
     ext_d = dst["px"] * max(ny, nx)
-    ext_s = min(3e5, ext_d * draw(st.sampled_from([0.1, 0.2, 0.3] if place == "bbox_corner" else [1.0, 1.0, 0.5, 2.0, 1 / 3.0, 1.7])))
-    px_s = min(ext_s / max(sny, snx), MAX_PX_M)
+    ext_s = min(4e6 if continental else 3e5, ext_d * draw(st.sampled_from([0.1, 0.2, 0.3] if place == "bbox_corner" else [1.0, 1.0, 0.5, 0.7] if continental else [1.0, 1.0, 0.5, 2.0, 1 / 3.0, 1.7])))
+    px_s = min(ext_s / max(sny, snx), 2e5 if continental else MAX_PX_M)
     ratio = px_s / dst["px"]  # src pixel size in dst pixels
     lin, klass = draw(lin_parts())
     r = 0.5 * ratio * math.hypot(snx, sny) * 1.3
@@ -1192,6 +1199,13 @@ def o_graph_other(case, T):
     if not (np.isfinite(Dout).all() and np.isfinite(Sout).all()):
         T.exclude("outline_not_projectable")
         return
+    # a raster whose outline is not a simple polygon in lon/lat (it reaches beyond the domain of its projection, wraps
+    # around the antimeridian or a pole) is outside what any footprint arithmetic can handle: input-side filter
+    for lab, A_, (h_, w_) in ((la, Ad, (ny, nx)), (lb, As, (sny, snx))):
+        LL = _project(lab, "4326", _apply(A_, _ring_dense([[0, 0], [w_, 0], [w_, h_], [0, h_]], 63)))
+        if not np.isfinite(LL).all() or np.ptp(LL[:, 0]) > 170 or not shapely.Polygon(LL).is_valid:
+            T.exclude("raster_outline_not_simple_in_lonlat")
+            return
     # every dst tile, densely, in the src pixel plane
     didx = [(iy, ix) for iy in range(len(dye) - 1) for ix in range(len(dxe) - 1)]
     rings = np.stack([_ring_dense([[dxe[ix], dye[iy]], [dxe[ix + 1], dye[iy]], [dxe[ix + 1], dye[iy + 1]], [dxe[ix], dye[iy + 1]]], EXTRA) for iy, ix in didx])
@@ -1237,6 +1251,111 @@ def o_graph_other(case, T):
     for nm, kl in (("dst", dgb["klass"]), ("src", sgb["klass"])):
         T.cls(nm + ":" + ("rotated" if any(k in kl for k in ("r90", "r270", "shear", "rot")) else "mirrored" if "mirror" in kl or "r180" in kl else "north_up"))
     _track_graph(T, case, rel, nd_with, len(didx), decided, (la, lb, case["src"]["off"]))
+
+
+# ============================================================================ continental cover (first stage)
+COVER_SETUPS = [
+    # (dst label, dst centre lon/lat, src label, src box half-span ranges in degrees)
+    ("3577", (133.0, -27.0), "4326"), ("3577", (133.0, -27.0), "4283"), ("3035", (10.0, 52.0), "4326"),
+    ("6933", (20.0, 30.0), "4326"), ("sinu", (60.0, 35.0), "4326"), ("32633", (15.0, 45.0), "4326"), ("32755", (147.0, -35.0), "4283"),
+    ("3577", (133.0, -27.0), "6933"), ("3035", (10.0, 52.0), "3857"),
+]
+
+
+@st.composite
+def s_graph_cover(draw):
+    k = draw(st.integers(0, len(COVER_SETUPS) - 1))
+    # destination: 2000-4000 km across in pixels of 8-20 km, tiles of 3-8 pixels; source: 24-40 degrees wide and
+    # 6-16 high, so that its long sides run through the destination with a sag of several destination tiles
+    n = draw(st.sampled_from([200, 256, 320]))
+    ext = draw(st.sampled_from([2.0e6, 3.0e6, 4.0e6]))
+    t = draw(st.sampled_from([3, 4, 5, 8]))
+    half = [draw(st.floats(12.0, 20.0)), draw(st.floats(3.0, 8.0))]  # half spans of the source box (degrees)
+    off = [draw(st.floats(-4.0, 4.0)), draw(st.floats(-4.0, 4.0))]
+    sres = draw(st.sampled_from([0.1, 0.25, 0.5]))
+    st_ = draw(st.sampled_from([8, 16, 40]))
+    return {"setup": k, "n": n, "ext": ext, "t": t, "half": half, "off": off, "sres": sres, "st": st_,
+            "dflip": draw(st.sampled_from([[1, -1], [1, -1], [1, 1], [-1, -1]])), "sflip": draw(st.sampled_from([[1, -1], [1, -1], [1, 1]]))}
+
+
+def o_graph_cover(case, T):
+    """'lists for every destination tile every source tile whose footprint overlaps it, whether or not the grids share
+    a CRS' on continental scales: every destination tile that lies well inside the source's TRUE footprint (its
+    outline followed with 256 points per side) must be in the graph, and the source tile under its centre among its
+    sources."""
+    import shapely
+    from affine import Affine
+
+    from odc.geo.geobox import GeoBox, GeoboxTiles
+
+    la, (clon, clat), lb = COVER_SETUPS[case["setup"]]
+    n, ext, t = case["n"], case["ext"], case["t"]
+    px = ext / n
+    cx, cy = _tr("4326", la).transform(clon, clat)
+    fx, fy = case["dflip"]
+    Ad = Affine(fx * px, 0, cx - fx * px * n / 2, 0, fy * px, cy - fy * px * n / 2)
+    dst = GeoBox((n, n), Ad, mk_crs_spec({"label": la, "spell": "proj" if la == "sinu" else "int"}))
+    # source: a box around (clon+off, clat+off) in ITS crs (degrees for geographic, projected units otherwise)
+    lon0, lat0 = clon + case["off"][0], clat + case["off"][1]
+    hx, hy = case["half"]
+    geo = crs_kind(lb) == "geographic"
+    if geo:
+        x0, x1, y0, y1 = lon0 - hx, lon0 + hx, max(-85.0, lat0 - hy), min(85.0, lat0 + hy)
+        sres = case["sres"]
+    else:
+        sx, sy = _tr("4326", lb).transform(lon0, lat0)
+        x0, x1, y0, y1 = sx - hx * 1e5, sx + hx * 1e5, sy - hy * 1e5, sy + hy * 1e5
+        sres = case["sres"] * 1e5
+    snx, sny = max(2, int(round((x1 - x0) / sres))), max(2, int(round((y1 - y0) / sres)))
+    gx, gy = case["sflip"]
+    As = Affine(gx * sres, 0, x0 if gx > 0 else x0 + snx * sres, 0, gy * sres, y0 if gy > 0 else y0 + sny * sres)
+    src = GeoBox((sny, snx), As, mk_crs_spec({"label": lb, "spell": "int"}))
+    dgbt = GeoboxTiles(dst, (t, t))
+    sgbt = GeoboxTiles(src, (case["st"], case["st"]))
+    # true outline of the source in the destination's pixel plane
+    ring = _ring_dense([[0, 0], [snx, 0], [snx, sny], [0, sny]], 255)
+    W = _apply(As, ring)
+    P = _apply(~Ad, _project(lb, la, W))
+    if not np.isfinite(P).all():
+        T.exclude("outline_not_projectable")
+        return
+    poly = shapely.Polygon(P)
+    if not poly.is_valid or poly.area <= 0:
+        T.exclude("outline_invalid")
+        return
+    inner = poly.buffer(-2.0)
+    res = dgbt.grid_intersect(sgbt)
+    require(isinstance(res, dict), "grid_intersect returned %s", type(res).__name__)
+    nty = -(-n // t)
+    iy, ix = np.divmod(np.arange(nty * nty), nty)
+    tiles = shapely.box(ix * t, iy * t, np.minimum(n, (ix + 1) * t), np.minimum(n, (iy + 1) * t))
+    inside = shapely.contains(inner, tiles) if not inner.is_empty else np.zeros(len(tiles), dtype=bool)
+    nin = int(inside.sum())
+    # centre of each inside tile -> source pixel -> source tile
+    cxs = (ix * t + np.minimum(n, (ix + 1) * t)) / 2.0
+    cys = (iy * t + np.minimum(n, (iy + 1) * t)) / 2.0
+    C = _apply(~As, _project(la, lb, _apply(Ad, np.stack([cxs, cys], axis=1))))
+    stt = case["st"]
+    missing = []
+    for k_ in np.flatnonzero(inside):
+        key = (int(iy[k_]), int(ix[k_]))
+        got = res.get(key)
+        if not got:
+            missing.append(key)
+            continue
+        sxp, syp = C[k_]
+        if 1.0 < sxp < snx - 1.0 and 1.0 < syp < sny - 1.0 and abs(sxp / stt - round(sxp / stt)) * stt > 1.0 and abs(syp / stt - round(syp / stt)) * stt > 1.0:
+            want = (int(syp // stt), int(sxp // stt))
+            require(want in {tuple(int(v) for v in g) for g in got}, "dst in %s, src in %s: destination tile %r (centre maps to source pixel (%.1f, %.1f)) lacks source tile %r; has %r",
+                    la, lb, key, sxp, syp, want, sorted(tuple(int(v) for v in g) for g in got)[:6])
+    require(not missing, "dst in %s (%dx%d px of %.0f m, tiles %d px), src in %s (%dx%d px): %d of the %d destination tiles that lie more than 2 px inside the source's footprint have no source tile at all, e.g. %r",
+            la, n, n, px, t, lb, sny, snx, len(missing), nin, missing[:4])
+    T.cls("pair:%s<%s" % (la, lb))
+    T.cls("src:" + crs_kind(lb))
+    if nin and nin < len(tiles):
+        T.nontrivial((case["setup"], n, t, tuple(round(h) for h in case["half"])))
+        T.cls("partial_cover")
+    T.cls("tiles_inside:%s" % ("0" if nin == 0 else "<100" if nin < 100 else ">=100"))
 
 
 # ============================================================================ locate
@@ -1404,6 +1523,8 @@ def build(chk: Check) -> None:
     chk.sub("query_other_crs", o_query_other, strategy=s_query_other(), n={"quick": 1400, "thorough": 70000}, budget_s={"quick": 60, "thorough": 140})
     chk.sub("graph_linear", o_graph_linear, cov={"quick": 300, "thorough": 20000}, strategy=s_graph_linear(), n={"quick": 800, "thorough": 30000}, budget_s={"quick": 60, "thorough": 140})
     chk.sub("graph_rotated", o_graph_rot, strategy=s_graph_rot(), n={"quick": 300, "thorough": 12000}, budget_s={"quick": 60, "thorough": 110})
+    chk.sub("graph_continental_cover", o_graph_cover, strategy=s_graph_cover(), n={"quick": 24, "thorough": 800}, budget_s={"quick": 70, "thorough": 300}, shrink=False)
+    chk.sub("graph_continental", o_graph_other, strategy=s_graph_other(continental=True), n={"quick": 150, "thorough": 6000}, budget_s={"quick": 60, "thorough": 200}, shrink=False)
     chk.sub("graph_other_crs", o_graph_other, strategy=s_graph_other(), n={"quick": 400, "thorough": 18000}, budget_s={"quick": 60, "thorough": 170})
     chk.sub("locate_enum", o_locate, enum=e_locate, exhaustive_tiers=("thorough",), budget_s={"quick": 60, "thorough": 90})
     chk.known("D8", _is_d8)
